@@ -58,7 +58,7 @@ func Main(args []string) int {
 			return
 		}
 		pi := parsers[mi]
-		ev := map[string]any{"ev": "SY", "in": fnutil.Bytes(line), "mapping": mappings[mi], "res": "drop"}
+		ev := map[string]any{"ev": "SY", "in": fnutil.Bytes(line), "mapping": mappings[mi], "res": "drop", "start": syslogprotocol.TestRecordStart([]byte(line))}
 		var rec *base.LogRecord
 		func() {
 			defer func() {
